@@ -89,6 +89,8 @@ def focus_opts(focus: str, ch: Choices, known: dict, params: dict) -> dict:
 
 def run(ch: Choices, focus: str = "C01", params: Optional[dict] = None) -> dict:
     params = params or {}
+    if params.get("explicit"):
+        return run_explicit(ch, focus, params["explicit"])
     known = params.get("known", {})
     seams.install()
     CLOCK.install()
@@ -129,6 +131,28 @@ def run(ch: Choices, focus: str = "C01", params: Optional[dict] = None) -> dict:
     out["key"] = sha([out["model"], configs])[:16]
     out["nontrivial"] = space >= 2 and len(model["props"]) >= 1 and out["probes"]["executions"] > 0
     out["sample"] = {"model": out["model"], "configs": configs, "ref_solutions": len(ref)}
+    return out
+
+
+def run_explicit(ch: Choices, focus: str, explicit: dict) -> dict:
+    """A pinned scenario written out in full (model, configurations): independent of the generator, used for the
+    witnesses of recorded findings and for regression replays of repaired defects."""
+    seams.install()
+    CLOCK.install()
+    out = {"violations": [], "probes": Counter(), "faults": Counter(), "steps": 0, "nontrivial": True}
+    model = explicit["model"]
+    out["model"] = gen.render_model(model)
+    out["model_dict"] = {k: model[k] for k in ("shr", "idx", "off", "props")}
+    ref = sorted(R.solutions(model))
+    h = []
+    for c in explicit["configs"]:
+        cfg = {"cons": c["cfg"][0], "var_h": c["cfg"][1], "dom_h": c["cfg"][2], "var_params": c.get("var_params", [[]]),
+               "dom_params": c.get("dom_params", [[]])}
+        pm = dict(model, props=[model["props"][i] for i in c.get("order", range(len(model["props"])))])
+        h.append(run_one(ch, focus, pm, cfg, c["mode"], c.get("policy", "native"), ref, out))
+    out["log_sha"] = sha(h)
+    out["key"] = sha([out["model"], explicit["configs"]])[:16]
+    out["sample"] = {"model": out["model"], "configs": explicit["configs"], "ref_solutions": len(ref)}
     return out
 
 
